@@ -6,6 +6,7 @@ propagation into one expression tree, the unique core call is located by its
 resolved callee, and parameters / result are followed through a whitelist of
 transparent operations.
 """
+import re
 from ..core import Run
 from ..facts import Facts
 from .. import hireval as H
@@ -87,6 +88,11 @@ def strip(t):
                 seen.append(".0")
                 t = t.parts[0]
                 continue
+            if t.what == "match" and len(t.parts) == 2 and _match_is_map(t):
+                # match r { Ok(v) => Ok(wrap(v)), Err(e) => Err(e.into()) }: map + map_err written out
+                seen.append("match-map")
+                t = t.parts[0]
+                continue
         if isinstance(t, H.V):
             if t.path in (H.OK, H.SOME) and len(t.args) == 1:
                 seen.append(short(t.path))
@@ -98,6 +104,27 @@ def strip(t):
                 t = t.args[0]
                 continue
         return t, seen
+
+
+def _match_is_map(t):
+    """every arm rebuilds the variant it matched around its own binding, under transparent wrappers only"""
+    scrut, arms = t.parts
+    if not isinstance(arms, tuple) or not arms:
+        return False
+    sc, _ = strip(scrut)
+    for a in arms:
+        if not (isinstance(a, H.Sym) and a.what == "arm" and len(a.parts) == 2 and isinstance(a.parts[0], str)):
+            return False
+        pat, body = a.parts
+        m = re.match(r"^(?:\w+::)*(Ok|Err|Some)\((\w+)\)$", pat.strip())
+        if not m or not isinstance(body, H.V) or len(body.args) != 1:
+            return False
+        if body.path != {"Ok": H.OK, "Err": H.ERR, "Some": H.SOME}[m.group(1)]:
+            return False
+        inner, _w = strip(body.args[0])
+        if not (inner is sc or inner == sc):
+            return False
+    return True
 
 
 def is_transparent_fn(f):
